@@ -299,6 +299,9 @@ func c04Env() *stick.Env {
 }
 
 func c04Run(c core.Case) core.Result {
+	if c.Fam == "long" {
+		return c04Long(c)
+	}
 	// N = [unaryPos, unaryOp, deco, ops...]
 	style := 0
 	if c.Fam == "chainlit" { // N = [style, unaryPos, unaryOp, deco, ops...]
@@ -353,6 +356,71 @@ func c04Run(c core.Case) core.Result {
 	return core.Okay(len(ops) >= 2 || unaryPos >= 0 || deco > 0, want)
 }
 
+// c04Long: a chain of n operands joined by one operator, and a ladder of n conditionals chained through their else
+// branches: the bare spelling and the spelling with the restating parentheses render identically, for every n up to 40
+// and several valuations (float sums and products are not associative, so a regrouped chain shows).
+func c04Long(c core.Case) core.Result {
+	kind, n, vi := c.N[0], c.N[1], c.N[2]
+	vals := [][]float64{{0.1, 0.2, 0.3, 0.7, 1.1, 0.1, 2.3, 0.9}, {1e16, 1, -1e16, 3, 1e-3, 7, 1e16, 0.5}, {3, 5, 2, 7, 11, 2, 3, 5}, {0.1, 0.1, 0.1, 0.1, 0.1, 0.1, 0.1, 0.1}, {1e200, 1e200, 1e-200, 1e-200, 1e150, 1e-150, 2, 3}}[vi]
+	ctx := map[string]stick.Value{}
+	name := func(i int) string { return "x" + itoa(i) }
+	for i := 0; i < n+1; i++ {
+		ctx[name(i)] = vals[i%len(vals)]
+	}
+	var bare, par string
+	if kind < len(c04LongOps) {
+		op := c04LongOps[kind]
+		rightAssoc := op == "**"
+		bare = name(0)
+		par = name(0)
+		if rightAssoc {
+			// a ** b ** c == a ** (b ** c): build from the right
+			par = name(n - 1)
+			for i := n - 2; i >= 0; i-- {
+				par = "(" + name(i) + " " + op + " " + par + ")"
+			}
+			for i := 1; i < n; i++ {
+				bare += " " + op + " " + name(i)
+			}
+			for i := 0; i < n; i++ {
+				ctx[name(i)] = []float64{2, 1, 1, 2, 1, 1, 1, 2}[i%8]
+			}
+		} else {
+			for i := 1; i < n; i++ {
+				bare += " " + op + " " + name(i)
+				par = "(" + par + " " + op + " " + name(i) + ")"
+			}
+		}
+	} else {
+		// ladder: s == 1 ? 'v1' : s == 2 ? 'v2' : ... : 'else'   ==   (s == 1 ? 'v1' : (s == 2 ? 'v2' : ( ... )))
+		ctx["s"] = vi*7 + 1
+		if vi == 4 {
+			ctx["s"] = 0
+		}
+		par = "'else'"
+		for i := n; i >= 1; i-- {
+			par = "(s == " + itoa(i) + " ? 'v" + itoa(i) + "' : " + par + ")"
+		}
+		bare = ""
+		for i := 1; i <= n; i++ {
+			bare += "s == " + itoa(i) + " ? 'v" + itoa(i) + "' : "
+		}
+		bare += "'else'"
+	}
+	env := c04Env()
+	o1, e1, p1 := tryExec(env, "{{ "+bare+" }}", ctx)
+	o2, e2, p2 := tryExec(env, "{{ "+par+" }}", ctx)
+	if p1 != "" || p2 != "" {
+		return core.Violation("panic", fmt.Sprintf("{{ %s }} panicked: %s%s", bare, p1, p2))
+	}
+	if o1 != o2 || (e1 == nil) != (e2 == nil) {
+		return core.Violation("rendered", fmt.Sprintf("{{ %s }} renders %q (%v) but with the restating parentheses, {{ %s }}, %q (%v); values %v", bare, o1, e1, par, o2, e2, vals))
+	}
+	return core.Okay(true, o1)
+}
+
+var c04LongOps = []string{"+", "-", "*", "/", "~", "and", "or", "b-and", "b-or", "b-xor", "**", "//", "%"}
+
 func c04Gen(k int, decorate bool, emit func(core.Case)) {
 	n := len(c04Bin)
 	idx := make([]int, k)
@@ -402,6 +470,18 @@ func c04Levels(tier string) []core.Level {
 		{Name: "chains of 2 binary operators (27^2) x decorations", Gen: func(emit func(core.Case)) { c04Gen(2, true, emit) }},
 		{Name: "chains of 3 binary operators (27^3) x decorations", Gen: func(emit func(core.Case)) { c04Gen(3, true, emit) }},
 	}
+	lv = append(lv, core.Level{Name: "length: chains of 2..40 operands joined by one operator (13 operators) and ladders of 1..40 conditionals chained through their else branches, bare vs with the restating parentheses, 5 valuations (decimal fractions, absorbing magnitudes, integers, overflow-prone)", Gen: func(emit func(core.Case)) {
+		for kind := 0; kind <= len(c04LongOps); kind++ {
+			for n := 2; n <= 40; n++ {
+				for vi := 0; vi < 5; vi++ {
+					if kind == len(c04LongOps) {
+						emit(core.Case{Fam: "long", N: []int{kind, n - 1, vi}})
+					}
+					emit(core.Case{Fam: "long", N: []int{kind, n, vi}})
+				}
+			}
+		}
+	}})
 	lv = append(lv, core.Level{Name: "literal operands: chains of <= 2 operators (thorough 3) whose operands are string literals / number literals / name, string, number in turn, x decorations", Gen: func(emit func(core.Case)) {
 		maxK := 2
 		if thorough(tier) {
